@@ -113,6 +113,10 @@ func vh_C20_hashes() {
 		`(struct Pt [(field X: int64 e:0)]) (Pt Zeta: 1 Alpha: 2 Mu: 3)`,
 		`(def h (hash a: 1)) (hget h zeta:) `,
 		`(+ 1 undefinedA undefinedB)`,
+		// encodings of hashes with a symbol key and a string key of the same spelling
+		`(def h (hash a: 1 "a" 2 b: 9001)) (str (unmsgpack (msgpack h)))`,
+		`(def h (hash "k" 1 k: 2 "z" 3)) (list (str (json h)) (str (unjson (json h))))`,
+		`(def h (hash b: (hash "x" 1 x: 2) a: 9001)) (str (unmsgpack (msgpack h)))`,
 	}
 	k := vChoice("program", len(progs))
 	run := func(e *Zlisp) string {
